@@ -8,6 +8,7 @@ RULES = {
     "K4": "remove/find: remove hands out the map removal's payload for the given id, find only reads",
     "Y1": "one store: len / is_empty / to_vec / find / Serialize read the id map (never the ticket queue, which still holds tickets of removed orders)",
     "V2": "to_vec lists each map entry once (collect over map iteration), last mutation a sort keyed on timestamp()",
+    "J1": "JSON form: the queue's elements keep their ids (OrderId writes to_string(), reads an owned string through from_str - a borrowed &str would fail for from_reader / from_value / escaped text - and that pair round-trips); no asymmetric serde attribute on the element types",
     "Q2": "nothing outside OrderQueue's own methods touches the map or the ticket queue; both fields private",
 }
 
@@ -39,6 +40,9 @@ def _run(ctx, chk):
     Q.rule_to_vec(chk, "V2")
     Q.who_may(chk, "Q2")
     Q.rule_private(chk, "Q2")
+    from .c17 import rule_serde_attrs, rule_order_id_json
+    rule_serde_attrs(ctx, chk, "J1", "J1")
+    rule_order_id_json(ctx, chk, "J1")
     rule_stale_tickets(ctx, chk, Q, "P5", "C19")
 
 
